@@ -219,7 +219,7 @@ func loopProp(c loopCase) common.Result {
 		}
 		return l
 	}
-	var unregDuringDispatch, nDelayedDelivered int
+	var unregDuringDispatch, nDelayedDelivered, staleUnregs int
 	var addEvent func(typ, val int)
 	register := func(op loopOp) {
 		h := &hrec{id: len(handlers), typ: op.T % 3, prio: op.Prio, inAdd: op.InAdd, act: op.Act % 6, u: op.U, live: true}
@@ -426,6 +426,19 @@ func loopProp(c loopCase) common.Result {
 				h.unregister()
 				h.live = false
 			}
+		case "unreg-again":
+			// the unregister function of a handler that is no longer registered is called once more (the loop's own
+			// TimeoutContext does that: once from its timeout handler, once from the cancel function it returns): no effect
+			var dead []*hrec
+			for _, h := range handlers {
+				if !h.live {
+					dead = append(dead, h)
+				}
+			}
+			if len(dead) > 0 {
+				dead[op.U%len(dead)].unregister()
+				staleUnregs++
+			}
 		case "delay":
 			v := nextVal
 			nextVal++
@@ -483,11 +496,14 @@ func loopProp(c loopCase) common.Result {
 	if unregDuringDispatch > 0 {
 		cl = append(cl, "unregister-during-dispatch")
 	}
+	if staleUnregs > 0 {
+		cl = append(cl, "unregister-called-again")
+	}
 	return common.OK(nDelayedDelivered >= 2 || unregDuringDispatch > 0, "", cl...)
 }
 
 func genLoopCase(rt *rapid.T) loopCase {
-	kinds := []string{"add", "add", "add", "reg", "reg", "unreg", "delay", "delay", "tick", "tick", "tick", "drain"}
+	kinds := []string{"add", "add", "add", "reg", "reg", "unreg", "unreg-again", "delay", "delay", "tick", "tick", "tick", "drain"}
 	n := rapid.IntRange(1, 40).Draw(rt, "n")
 	ops := make([]loopOp, n)
 	for i := range ops {
